@@ -197,6 +197,9 @@ def run_scenario(sc):
     rfc = None
     if peer != "real":
         rfc = RfcPeer("client" if peer == "zlib-client" else "server", resp_ext, rng)
+        if not (9 <= rfc.s_w <= 15 and 9 <= rfc.c_w <= 15):
+            viol("response-window-out-of-range", "the server's response carries a window size outside 9..15: %r" % resp_ext)
+            return res
     prev = {"c2s": None, "s2c": None}
     refused = {"c2s": 0, "s2c": 0}
     seen_events = {"c2s": 0, "s2c": 0}
